@@ -102,4 +102,86 @@ PROPERTIES = {
             "bounded channel only (relational comparison of the two real fits), not by a solver query",
         ],
     },
+    "C13": {
+        "functions": ["opfython.models.unsupervised.UnsupervisedOPF._clustering",
+                      "opfython.models.knn_supervised.KNNSupervisedOPF._clustering",
+                      "opfython.models.unsupervised.UnsupervisedOPF.propagate_labels"] + HEAP_FUNCS,
+        "lemmas": HEAP_LEMMAS + ["inj_card"],
+        "files": ["opfython/models/unsupervised.py", "opfython/models/knn_supervised.py", "opfython/core/heap.py",
+                  "opfython/core/node.py", "opfython/core/subgraph.py", "opfython/subgraphs/knn.py",
+                  "opfython/utils/constants.py"],
+        "bounded": "bounded.knn",
+        "level": "proof",
+        "trusted": COMMON_TRUST + GRAPH_TRUST[2:] + [
+            "precondition of _clustering (1 <= density <= MAX_DENSITY, cost = density - 1, adjacency entries are node "
+            "indices, lists at least n_plateaus + k long) is what calculate_pdf / create_arcs leave behind; that link is "
+            "the subject of C12 (until C12's contracts are discharged it is checked by the bounded channel only)",
+            "float64 neighbour indices stored in the adjacency lists are modelled as integers (exact below 2^53)",
+            "'reaches exactly one root, and the recorded root is that root' follows from the discharged clauses root(x) = "
+            "root(pred x), pred(root x) = NIL and the strictly-earlier-predecessor clause by induction along the chain "
+            "(pencil step)",
+        ],
+    },
+    "C06": {
+        "functions": ["registry"] + ["metric:" + k for k in sorted(__import__("specs.metrics", fromlist=["METRICS"]).METRICS)],
+        "lemmas": [],
+        "files": ["opfython/math/distance.py", "opfython/core/opf.py", "opfython/utils/constants.py",
+                  "opfython/utils/decorator.py", "opfython/models/supervised.py", "opfython/models/semi_supervised.py",
+                  "opfython/models/knn_supervised.py", "opfython/models/unsupervised.py"],
+        "bounded": "bounded.metrics",
+        "level": "proof",
+        "trusted": [
+            "pyvc.vecexpr evaluates the numpy expressions of the metric bodies symbolically from the real AST "
+            "(elementwise + - * / ** 2, ** 0.5, fabs, log, exp, minimum, maximum, comparisons; reductions sum / amax / "
+            "count_nonzero; x.shape[0]); numpy broadcasting of a scalar and a vector is elementwise",
+            "congruence + homogeneity + additivity of the reductions (equal summands give equal sums for EVERY vector "
+            "length; sum(c*f) = c*sum(f); a numeric-linear combination of sums is the sum of the combination) - the "
+            "external contract of np.sum / np.amax / np.count_nonzero; this is what removes the bound on the length",
+            "machine arithmetic treated as mathematical (the property itself says 'up to floating-point rounding'); "
+            "u ** 0.5 is the non-negative root, log/exp uninterpreted",
+            "numba preserves the semantics of the @njit bodies; recorded deviation: inside @njit `b is True` on a boolean "
+            "is equality (numba), which is how hassanat's mask test is read",
+            "the closed-form table /verif/specs/metrics.py (from Cha 2007 and Abu Alfeilat et al. 2019) is the reference; "
+            "for metrics wrapped by avoid_zero_division the closed form is stated at the shifted arguments and the shift "
+            "itself is a static obligation on the wrapper",
+            "z3 (nlsat) answers unsat only for unsatisfiable queries",
+        ],
+    },
+    "C07": {
+        "functions": ["effects:C07"],
+        "lemmas": [],
+        "files": ["opfython/utils/decorator.py", "opfython/math/distance.py", "opfython/core/node.py",
+                  "opfython/core/subgraph.py", "opfython/core/opf.py", "opfython/models/supervised.py",
+                  "opfython/models/semi_supervised.py", "opfython/models/knn_supervised.py",
+                  "opfython/models/unsupervised.py", "opfython/subgraphs/knn.py", "opfython/math/general.py"],
+        "bounded": "bounded.metrics",
+        "level": "proof",
+        "trusted": [
+            "frame obligations are discharged by a conservative syntactic may-mutate inference (pyvc/effects.py) over the "
+            "real source: in-place operators, element stores, mutating methods, aliases through assignment / basic "
+            "indexing / np.asarray / zip / enumerate, attribute-held arrays (features, pre_distances), fix-point over the "
+            "call graph with calls resolved by name to every function of that name; back end: static (no solver query)",
+            "external library functions (numpy, pickle, json, struct) do not mutate their array arguments, except the "
+            "ndarray methods listed as mutating",
+            "history independence and reproducibility follow from the functional postconditions (C06: a metric's value is a "
+            "function of the argument values) plus the `reads` obligations (no global / nonlocal state, no RNG in the "
+            "listed functions); logging and timing statements are dropped",
+            "SupervisedOPF.learn is licensed to exchange rows between its four arrays (C17) and is outside this property",
+        ],
+    },
+    "C08": {
+        "functions": ["registry"] + ["metric:" + k for k in sorted(__import__("specs.metrics", fromlist=["METRICS"]).METRICS)],
+        "lemmas": [],
+        "files": ["opfython/math/distance.py", "opfython/utils/decorator.py", "opfython/utils/constants.py"],
+        "bounded": "bounded.metrics",
+        "level": "other",
+        "explanation": "PROVED: each registry entry equals its closed form (C06 obligations, all vector lengths) and every "
+                       "partial operation (division, log, root) is defined on the metric's domain over the reals. "
+                       "BOUNDED (run-time contract on the real functions, stated scope): the axiom table of "
+                       "specs/metrics.py - finite, symmetric, non-negative, zero self-distance, triangle inequality for the "
+                       "13 listed true metrics - on generated vectors of length 1..6 incl. identical, parallel, probability "
+                       "and zero-containing vectors. CITED: Soergel triangle inequality. Float-fragile clauses (chord's "
+                       "radicand, cosine/bhattacharyya sign up to 1 ulp) are checked on the real functions only.",
+        "trusted": ["see C06", "axiom table fixed in /verif/specs/metrics.py"],
+    },
 }
